@@ -48,13 +48,14 @@ struct seq_fn
         // accumulates its own subsequence next to its neighbours (separate compensation per bin)
         proj.add(1, (T(k % 3) + T(0.5)) / T(3) * T(0.7L), v);      // three bins on [0, 0.7]: the inverse width is no round number
         proj.add(2, (T(k % 2) + T(0.5)) / T(2), T(0.5), v);
+        proj.add(3, T(512) + T(1024) * T(k % 2), v);                  // two bins of width 1024 (bin area far above one)
         return v;
     }
 };
 
-// bin sums of the two multi-bin distributions: 3 + 2 values
+// bin sums of the three multi-bin distributions: 3 + 2 + 2 values
 template <typename T>
-struct sums { T plain, with_dist, bin; sz calls_seen; T more[5]; };
+struct sums { T plain, with_dist, bin; sz calls_seen; T more[7]; };
 
 template <typename T>
 static sums<T> run(std::function<T(sz)> const& value, sz n)
@@ -68,13 +69,14 @@ static sums<T> run(std::function<T(sz)> const& value, sz n)
     counter = 0;
     auto const r2 = hep::plain_iteration(hep::make_integrand<T>(seq_fn<T>{&value, &counter}, 1,
         hep::make_dist_params<T>(2, T(0), T(1), "bin"), hep::make_dist_params<T>(3, T(0), T(0.7L), "three"),
-        hep::distribution_parameters<T>(2, 1, T(0), T(1), T(0), T(1), "two")), n, g2);
+        hep::distribution_parameters<T>(2, 1, T(0), T(1), T(0), T(1), "two"), hep::make_dist_params<T>(2, T(0), T(2048), "wide")), n, g2);
     s.with_dist = r2.sum();
     // the first distribution has two bins of width 1/2; everything goes to the second one (the division by 2 is exact)
     s.bin = r2.distributions().at(0).results().at(1).sum() / T(2);
     // bin widths 1/3 and 1/2: the reported sums are divided by the bin area, undo it exactly where possible
     for (sz b = 0; b != 3; ++b) s.more[b] = r2.distributions().at(1).results().at(b).sum();
     for (sz b = 0; b != 2; ++b) s.more[3 + b] = r2.distributions().at(2).results().at(b).sum();
+    for (sz b = 0; b != 2; ++b) s.more[5 + b] = r2.distributions().at(3).results().at(b).sum();
     return s;
 }
 
@@ -83,7 +85,7 @@ static sums<T> run(std::function<T(sz)> const& value, sz n)
 template <typename T>
 static void judge_more(report& r, sums<T> const& s, std::function<T(sz)> const& value, sz n, std::string const& id, std::string const& desc)
 {
-    __float128 ex[5] = {0, 0, 0, 0, 0}, mg[5] = {0, 0, 0, 0, 0};
+    __float128 ex[7] = {0, 0, 0, 0, 0, 0, 0}, mg[7] = {0, 0, 0, 0, 0, 0, 0};
     for (sz k = 0; k != n; ++k)
     {
         T const tv = value(k);
@@ -91,19 +93,20 @@ static void judge_more(report& r, sums<T> const& s, std::function<T(sz)> const& 
         __float128 const v = tv;
         ex[k % 3] += v; mg[k % 3] += v < 0 ? -v : v;
         ex[3 + k % 2] += v; mg[3 + k % 2] += v < 0 ? -v : v;
+        ex[5 + k % 2] += v; mg[5 + k % 2] += v < 0 ? -v : v;
     }
     // bin width of the three-bin distribution exactly as the library stores it
     __float128 const width3 = static_cast<__float128>(hep::make_dist_params<T>(3, T(0), T(0.7L), "three").bin_size_x());
-    for (sz b = 0; b != 5; ++b)
+    for (sz b = 0; b != 7; ++b)
     {
-        __float128 const scale = b < 3 ? 1 / width3 : 2;
+        __float128 const scale = b < 3 ? 1 / width3 : b < 5 ? 2 : static_cast<__float128>(1) / 1024;
         __float128 d = static_cast<__float128>(s.more[b]) - ex[b] * scale;
         if (d < 0) d = -d;
         // (the division by the bin width is one more rounding: relative for normal results, one subnormal step otherwise)
         if (!(d <= 3 * static_cast<__float128>(std::numeric_limits<T>::epsilon()) * mg[b] * scale + 2 * static_cast<__float128>(std::numeric_limits<T>::denorm_min())))
         {
-            r.violate("accuracy-lost/bin-of-multi-bin-distribution", id, std::string(vf::type_name<T>()) + " " + desc + ": bin " + std::to_string(b < 3 ? b : b - 3) + " of distribution "
-                + (b < 3 ? "1" : "2") + " reports " + vf::dec(static_cast<long double>(s.more[b])) + ", exact " + vf::dec(static_cast<long double>(ex[b] * scale)) + ", error "
+            r.violate("accuracy-lost/bin-of-multi-bin-distribution", id, std::string(vf::type_name<T>()) + " " + desc + ": bin " + std::to_string(b < 3 ? b : b < 5 ? b - 3 : b - 5) + " of distribution "
+                + (b < 3 ? "1" : b < 5 ? "2" : "3 (bins of width 1024)") + " reports " + vf::dec(static_cast<long double>(s.more[b])) + ", exact " + vf::dec(static_cast<long double>(ex[b] * scale)) + ", error "
                 + vf::dec(static_cast<long double>(d / (static_cast<__float128>(std::numeric_limits<T>::epsilon()) * mg[b] * scale))) + " eps*sum|v| (bound 3)");
             return;
         }
@@ -234,8 +237,8 @@ struct weighted_fn
     }
     T operator()(hep::vegas_point<T> const& p) const { return note(p); }
     T operator()(hep::multi_channel_point<T> const& p) const { return note(p); }
-    T operator()(hep::vegas_point<T> const& p, hep::projector<T>& proj) const { T const v = note(p); proj.add(0, T(0.5), v); return v; }
-    T operator()(hep::multi_channel_point<T> const& p, hep::projector<T>& proj) const { T const v = note(p); proj.add(0, T(0.5), v); return v; }
+    T operator()(hep::vegas_point<T> const& p, hep::projector<T>& proj) const { T const v = note(p); proj.add(0, T(0.5), v); proj.add(1, T(0.5), T(0.5), v); return v; }
+    T operator()(hep::multi_channel_point<T> const& p, hep::projector<T>& proj) const { T const v = note(p); proj.add(0, T(0.5), v); proj.add(1, T(0.5), T(0.5), v); return v; }
 };
 
 template <typename T>
@@ -248,24 +251,40 @@ static void weighted_case(report& r, std::function<T(sz)> const& value, sz n, st
         __float128 exact = 0, mag = 0;
         weighted_fn<T> fn{&value, &counter, &exact, &mag};
         vf::script_engine gen;
-        T sum;
+        T sum, bin1 = T(), bin2 = T();     // with distributions: the single bin of a 1-d and of a 2-d distribution (area 1) holds everything
         if (kind < 2)
         {
             hep::vegas_pdf<T> pdf(1, 3);
             pdf.set_bin_left(0, 1, T(1) / T(7)); pdf.set_bin_left(0, 2, T(0.7L));
-            sum = kind == 0 ? hep::vegas_iteration(hep::make_integrand<T>(fn, 1), n, pdf, gen).sum()
-                            : hep::vegas_iteration(hep::make_integrand<T>(fn, 1, hep::make_dist_params<T>(1, T(0), T(1), "d")), n, pdf, gen).sum();
+            if (kind == 0) sum = hep::vegas_iteration(hep::make_integrand<T>(fn, 1), n, pdf, gen).sum();
+            else
+            {
+                auto const res = hep::vegas_iteration(hep::make_integrand<T>(fn, 1, hep::make_dist_params<T>(1, T(0), T(1), "d"), hep::distribution_parameters<T>(1, 1, T(0), T(1), T(0), T(1), "d2")), n, pdf, gen);
+                sum = res.sum(); bin1 = res.distributions().at(0).results().at(0).sum(); bin2 = res.distributions().at(1).results().at(0).sum();
+            }
         }
         else
         {
             vf::pl_map<T> map; map.split = {T(1) / T(3), T(0.7L)}; map.dims = 1;
             std::vector<T> const w = {T(1) / T(3), T(2) / T(3)};
-            sum = kind == 2 ? hep::multi_channel_iteration(hep::make_multi_channel_integrand<T>(fn, 1, map, 1, 2), n, w, gen).sum()
-                            : hep::multi_channel_iteration(hep::make_multi_channel_integrand<T>(fn, 1, map, 1, 2, hep::make_dist_params<T>(1, T(0), T(1), "d")), n, w, gen).sum();
+            if (kind == 2) sum = hep::multi_channel_iteration(hep::make_multi_channel_integrand<T>(fn, 1, map, 1, 2), n, w, gen).sum();
+            else
+            {
+                auto const res = hep::multi_channel_iteration(hep::make_multi_channel_integrand<T>(fn, 1, map, 1, 2, hep::make_dist_params<T>(1, T(0), T(1), "d"),
+                    hep::distribution_parameters<T>(1, 1, T(0), T(1), T(0), T(1), "d2")), n, w, gen);
+                sum = res.sum(); bin1 = res.distributions().at(0).results().at(0).sum(); bin2 = res.distributions().at(1).results().at(0).sum();
+            }
         }
         r.count("values_summed", n);
         __float128 d = static_cast<__float128>(sum) - exact;
         if (d < 0) d = -d;
+        if (kind % 2 == 1)
+            for (T b : {bin1, bin2})
+            {
+                __float128 db = static_cast<__float128>(b) - exact;
+                if (db < 0) db = -db;
+                if (db > d) d = db;     // the worst of the integral and the two bins
+            }
         if (!(d <= 2 * static_cast<__float128>(eps) * mag))
         {
             char const* const names[] = {"vegas", "vegas-with-distribution", "multi_channel", "multi_channel-with-distribution"};
